@@ -16,6 +16,8 @@ THEOREMS = [
     ("EG.props.C03", "C03_request_content"),
     ("EG.props.C03", "C03_response_content"),
     ("EG.props.C03", "C03_well_framed"),
+    ("EG.props.C03", "C03_history_faithful"),
+    ("EG.props.C03", "C03_cache_hit_immutable"),
     ("EG.props.C03", "C03_refuted_compress_len"),
     ("EG.props.C03", "C03_refuted_adaptor_body_len"),
     ("EG.props.C03", "C03_refuted_decoded_path"),
@@ -24,21 +26,23 @@ THEOREMS = [
 _NET = "harness/httpserver/zz_verif_c07_net_test.go"
 HARNESSES = [
     dict(name="e2e", pkg="pkg/object/httpserver", files=[_NET, "harness/httpserver/zz_verif_c03_e2e_test.go"],
-         run="TestVerifC03E2E", groups=["e2e"], timeout=900, share=0.5),
+         run="TestVerifC03E2E", groups=["e2e", "hist"], timeout=900, share=0.5),
     dict(name="unit", pkg="pkg/filters/proxy", files=["harness/proxy/zz_verif_c03_unit_test.go"],
          run="TestVerifC03Unit", groups=["hop", "addr"], timeout=600, share=0.5),
 ]
-GROUPS = {"e2e": "(check_e2e_with pinned)", "hop": "check_hop", "addr": "check_addr"}
-EXPLAIN = {"e2e": "(explain_e2e_with pinned)", "hop": "explain_hop", "addr": "explain_addr"}
+GROUPS = {"e2e": "(check_e2e_with pinned)", "hist": "(check_hist_with pinned)", "hop": "check_hop", "addr": "check_addr"}
+EXPLAIN = {"e2e": "(explain_e2e_with pinned)", "hist": "(explain_hist_with pinned)", "hop": "explain_hop", "addr": "explain_addr"}
 CASES = {"quick": 1200, "thorough": 12000}
 RULE = ("e2e cases: methods (incl. extension methods) x request-targets with percent-escapes (%2F %3F %25 %23 %20, UTF-8, '.', '..', ';', empty "
         "segments) and raw queries x client header sets (repeated headers, mixed-case names, near-miss names, all nine hop-by-hop names, Connection "
         "lists with lower-case / absent / end-to-end-named tokens, Accept-Encoding variants) x bodies 0..3000 bytes (thorough: up to 100 KB) sent with "
         "Content-Length / chunked / gzip-labelled x buffered or stream mode in each direction x IP or host-name server x keepHost x compression "
         "minLength {none,0,1,20,100,1000} with bodies at minLength-1/minLength/minLength+1 x Request/ResponseAdaptor body/compress/decompress x backend "
-        "status x backend headers x response framing (Content-Length, chunked, close-delimited) x gzip-labelled responses; one case in 15 follows a boundary schedule: every body-transforming path (proxy compression, transparent gunzip, "
+        "status x backend headers x response framing (Content-Length, chunked, close-delimited) x gzip-labelled responses; one case in 20 follows a boundary schedule: every body-transforming path (proxy compression, transparent gunzip, "
         "Request/ResponseAdaptor compress and decompress, pass-through; buffered and stream) with a (decoded) body of exactly k x the gzip reader's round "
-        "(8 pages), k x {2048, 4096, 8 pages, 16 pages} and one byte off; the gzip oracle is compress/gzip in one shot, not easegress' own reader; hop cases: cloneHeader on "
+        "(8 pages), k x {2048, 4096, 8 pages, 16 pages} and one byte off; the gzip oracle is compress/gzip in one shot, not easegress' own reader; hist cases (1 in 10): 3..8 requests against ONE pipeline whose pool has a memoryCache (codes / methods / maxEntryBytes), the same "
+        "cacheable request repeated (miss, hits) interleaved with other resources, other methods, Cache-Control no-cache / no-store requests and answers, a distinct backend "
+        "answer per step, ResponseAdaptor header del/set/add, body, compress, decompress after the Proxy; hop cases: cloneHeader on "
         "random header maps; addr cases: Server.checkAddrPattern on URL shapes (IPv4/IPv6 literals, ports, brackets, names); non-trivial = the "
         "request-target parses; classes add: hop-by-hop header present(+1) escaped target(+2) compression configured(+4) adaptor(+8) stream mode(+16) "
         "host-name server(+32) encoded backend response(+64); distinct = distinct (group, input) hashes among non-trivial cases")
@@ -173,9 +177,11 @@ def _cl(hs, kind, declared):
     return Opt(Z(declared)) if kind == "cl" and declared >= 0 else "None"
 
 
-def _encode_e2e(c):
+def _encode_e2e(c, pool=None):
     i, o = c["in"], c["obs"]
-    pool = _Pool()
+    own = pool is None
+    if own:
+        pool = _Pool()
     S = pool.s
     orc = i["o"]
     server_host = i["srvHost"] + ":PORT"
@@ -196,7 +202,8 @@ def _encode_e2e(c):
         x_bcount=Z(o["bcount"]), x_bmethod=S(o["bmethod"]), x_btarget=S(o["btarget"]), x_bparsed=_target(o["bparsed"], S),
         x_bhost=S(o["bhost"]), x_bheaders=_hmap(o["bheaders"], S), x_bbody=S(_b(o["bbody"])),
         x_bdec=Opt(S(_b(o["bdec"]))) if o["bdecOK"] else "None")
-    return pool.wrap(Rec(
+    wrap = pool.wrap if own else (lambda t: t)
+    return wrap(Rec(
         e_cfg=cfg, e_method=S(i["method"]), e_target=S(i["target"]), e_host=S(i["host"]),
         e_hdrs=_pairs(i["headers"], S), e_body=S(_b(i["reqBody"])),
         e_resp_status=Z(i["respStatus"]), e_resp_hdrs=_pairs(i["respHeaders"], S),
@@ -214,6 +221,18 @@ def encode(c):
     i, o = c["in"], c["obs"]
     if c["grp"] == "e2e":
         return _encode_e2e(c)
+    if c["grp"] == "hist":
+        steps_in = i.get("steps") or []
+        steps_obs = o.get("steps") or []
+        bad = bool(o.get("panic")) or len(steps_in) != len(steps_obs)
+        pool = _Pool()
+        steps = [_encode_e2e({"in": a, "obs": b}, pool) for a, b in zip(steps_in, steps_obs)]
+        mc, ed = i["cache"], i["edit"]
+        return pool.wrap(Rec(hi_spec=Rec(mc_on=B(mc["on"]), mc_codes=L([Z(x) for x in mc["codes"] or []]),
+                               mc_methods=L([S(x) for x in mc["methods"] or []]), mc_max=Z(mc["max"])),
+                   hi_edit=Rec(he_del=L([S(x) for x in ed.get("del") or []]), he_set=_pairs(ed.get("set")),
+                               he_add=_pairs(ed.get("add"))),
+                   hi_steps=L(steps), hi_bad=B(bad)))
     if c["grp"] == "hop":
         return Rec(hc_in=_hmap_lists(i["header"]), hc_out=_hmap_lists(o["out"]), hc_canon=_pairs(i["canon"]))
     if c["grp"] == "addr":
@@ -234,6 +253,11 @@ def distribution(cases):
     for c in cases:
         i, o = c["in"], c["obs"]
         d["groups"][c["grp"]] = d["groups"].get(c["grp"], 0) + 1
+        if c["grp"] == "hist":
+            d.setdefault("hist_steps", 0)
+            d.setdefault("hist_hits", 0)
+            d["hist_steps"] += len(i.get("steps") or [])
+            d["hist_hits"] += sum(1 for x in (o.get("steps") or []) if x.get("got") and x.get("bcount") == 0)
         if c["grp"] != "e2e":
             continue
         for k, v in (("methods", i["method"]), ("client_status", str(o["status"])), ("resp_enc", i["respEnc"]), ("req_enc", i["reqEnc"]),
@@ -247,6 +271,8 @@ def distribution(cases):
 
 
 def signature(c, r):
+    if c["grp"] == "hist":
+        return "hist/" + ",".join("%s:%s:%s" % (x.get("status"), x.get("bcount"), x.get("frameOK")) for x in (c["obs"].get("steps") or []))[:80]
     if c["grp"] != "e2e":
         return c["grp"]
     i, o = c["in"], c["obs"]
@@ -254,7 +280,23 @@ def signature(c, r):
 
 
 def shrink_candidates(inp, grp):
-    if grp != "e2e" or os.environ.get("VERIF_NO_SHRINK"):
+    if os.environ.get("VERIF_NO_SHRINK"):
+        return
+    if grp == "hist":
+        steps = inp.get("steps") or []
+        for k in range(len(steps)):
+            if len(steps) > 1:
+                cand = dict(inp)
+                cand["steps"] = steps[:k] + steps[k + 1:]
+                yield cand
+        for key in ("del", "set", "add"):
+            if inp["edit"].get(key):
+                cand = dict(inp)
+                cand["edit"] = dict(inp["edit"])
+                cand["edit"][key] = []
+                yield cand
+        return
+    if grp != "e2e":
         return
     hs = inp.get("headers") or []
     for k in range(len(hs)):
